@@ -6,7 +6,11 @@ spec/SliceUse.tla   one Slice element used repeatedly: two interleaved run gener
                     bookkeeping (operational, mirrored from the code) against Slice.tla's declarative side
 spec/Iterators.tla  Reverse, Chain, CountFrom, RunningChunkBy machines + references, for every way of
                     constructing / feeding them (opt)
-spec/Trace_Slice.tla  validation of recorded runs beyond the exhaustive bounds
+spec/SliceFlow.tla  Slice.tla x the protocol surface of the flow object (how iter() works; len / integer index /
+                    negative index / slice / registered Sequence / reversed): "for every finite flow"
+spec/ChainRef.tla, ChainLazy.tla  Chain over iterables that depend on each other (a generator filling a container
+                    that is chained after it, raising iterables): when each iterable is asked for its iterator
+spec/Trace_Slice.tla, Trace_Chain.tla  validation of recorded runs beyond the exhaustive bounds
 """
 import itertools
 import random
@@ -18,6 +22,7 @@ from .. import core
 from .. import tlcpar
 from ..splitlib import deadline, Watchdog
 from ..util import CountingIter, exc_name
+from .. import c17flows
 
 NONE = -1000
 # flow values that an implementation might confuse with "no value": identity is compared
@@ -46,7 +51,22 @@ def make_flow(n, kind):
         return range(n)
     if kind == "gen":
         return (i for i in range(n))
+    if kind == "deque":
+        return collections.deque(range(n))
+    if kind == "keys":
+        return dict.fromkeys(range(n)).keys()
+    if kind == "useq":
+        # a registered Sequence with the abstract methods only (integer indices)
+        return c17flows.flow_class("iter", ("len", "index", "seq"))(range(n))
+    if kind == "legacy":
+        # no __iter__: iterated through __getitem__(0), (1), ...
+        return c17flows.flow_class("legacy", ("index",))(range(n))
+    if kind == "bare":
+        return c17flows.flow_class("iter", ())(range(n))
     return iter(range(n))
+
+
+MORE_FLOW_KINDS = ("deque", "keys", "useq", "legacy", "bare")
 
 
 def arg_forms(a, b, s):
@@ -219,6 +239,75 @@ def replay_use(ctx, rec, lena):
     return True
 
 
+def replay_flows(ctx, recs, lena):
+    """SliceFlow.tla: every (scenario, protocol surface of the flow) on the real Slice.run.
+
+    The flow is realised by a synthetic class with exactly the exported surface and by every builtin type that
+    has it; the expected values are the exported positions mapped through list(flow)."""
+    failures = {}
+    surfaces = set()
+    for rec in recs:
+        a, b, s, n = _py(rec["a"]), _py(rec["b"]), _py(rec["s"]), rec["n"]
+        proto, caps = c17flows.profile_of(rec)
+        sig = "+".join((proto,) + tuple(c for c in c17flows.CAPS if c in caps))
+        surfaces.add(sig)
+        ctx.case(["flow", rec["a"], rec["b"], rec["s"], n, sig], nontrivial=n > 0)
+        for name, make in c17flows.realisations(proto, caps, n):
+            listed = list(make())
+            expected = [listed[i] for i in rec["out"]]
+            try:
+                with deadline(20):
+                    out = L(lena.flow.Slice(a, b, s).run(make()))
+            except Watchdog:
+                out = "does not terminate"
+            except Exception as exc:       # noqa
+                out = "raised " + exc_name(exc)
+            if out != expected:
+                who = sig if name == "synthetic" else name
+                failures.setdefault(rec["branch"], []).append(
+                    ((len(caps), name != "synthetic", who, n),
+                     {"args": repr((a, b, s)), "flow": "%s (%s) over %d values" % (who, sig, n),
+                      "expected": expected, "observed": out}))
+    # per branch of the algorithm the failure with the smallest protocol surface is reported
+    for branch in sorted(failures):
+        rank, detail = min(failures[branch], key=lambda f: f[0])
+        ctx.violation("Slice.run:flow-protocol:branch=%s:%s" % (branch, rank[2]),
+                      dict(detail, failing_cases_of_this_branch=len(failures[branch])))
+    ctx.extra["flow_protocol_surfaces"] = len(surfaces)
+    return not failures
+
+
+def run_chain_dyn(lena, kinds, lens, shared, static_as=list):
+    """Chain over the dependent iterables of a ChainRef scenario -> (values, exception, final container)."""
+    its, content = c17flows.chain_iterables(kinds, lens, shared, static_as)
+    got, err = [], "none"
+    try:
+        for v in itertools.islice(lena.flow.Chain(*its)(), CAP):
+            got.append(v)
+    except c17flows.Boom:
+        err = "Boom"
+    except Exception as exc:       # noqa
+        err = "raised " + exc_name(exc)
+    return got, err, content()
+
+
+def replay_chain_dyn(ctx, rec, lena, idx=0):
+    kinds, lens = rec["kinds"], rec["lens"]
+    exp = ([tuple(v) for v in rec["out"]], rec["err"], [tuple(v) for v in rec["log"]])
+    ctx.case(["chain-dependent", kinds, lens], nontrivial=bool(exp[0]))
+    ok = True
+    # without the shared container among the iterables its type does not matter
+    shared_kinds = c17flows.SHARED_KINDS if "snap" in kinds else (c17flows.SHARED_KINDS[idx % len(c17flows.SHARED_KINDS)],)
+    for shared in shared_kinds:
+        got = run_chain_dyn(lena, kinds, lens, shared, (list, tuple)[idx % 2])
+        if got != exp:
+            ok = False
+            what = "values" if got[0] != exp[0] else "exception" if got[1] != exp[1] else "container"
+            ctx.violation("Chain:dependent-iterables:%s:%s" % (shared, what),
+                          {"scenario": rec, "shared_container": shared, "expected": repr(exp), "observed": repr(got)})
+    return ok
+
+
 class TupleSub(tuple):
     pass
 
@@ -274,8 +363,7 @@ def replay_iter(ctx, rec, lena):
     try:
         if kind == "reverse":
             rv = lena.flow.Reverse()
-            src = {"iter": iter(range(n)), "list": list(range(n)), "tuple": tuple(range(n)),
-                   "gen": (i for i in range(n)), "range": range(n)}[opt]
+            src = make_flow(n, opt)
             got["Reverse"] = L(rv.run(src))
             if opt == "list" and src != list(range(n)):
                 got["Reverse:input-list-changed"] = src
@@ -373,7 +461,8 @@ def replay_iter(ctx, rec, lena):
             L(g2)
             got[name + ":interleaved-runs"] = [norm(w) for w in first + L(g1)]
             # the flow may be a container
-            got[name + ":container-flow"] = [norm(w) for w in L(rc.run([list(range(n)), tuple(range(n)), range(n)][p1 % 3]))]
+            ckinds = ("list", "tuple", "range") + MORE_FLOW_KINDS
+            got[name + ":container-flow"] = [norm(w) for w in L(rc.run(make_flow(n, ckinds[(p1 + n) % len(ckinds)])))]
             if opt in ("tuple", "list_it", "nt"):
                 objs = [ODD_VALUES[i % len(ODD_VALUES)] for i in range(n)]
                 o = [list(w) for w in L(rc.run(iter(objs)))]
@@ -438,6 +527,33 @@ def bad_steps(ctx, lena):
     return n
 
 
+def mc_export(module, cfg, must_cover, min_records):
+    """One TLC run that checks the invariants of the cfg AND exports (PrintT) the terminal states."""
+    return {"what": "mc+export", "module": module, "cfg": cfg, "must_cover": tuple(must_cover),
+            "min_records": min_records, "workers": 1, "coverage": True}
+
+
+def run_jobs(ctx, jobs):
+    """tlcpar.run_jobs, extended by the mc+export jobs (which are checked like both kinds of job)."""
+    both = [j for j in jobs if j["what"] == "mc+export"]
+    for j in both:
+        j["what"] = "export"
+    try:
+        out = tlcpar.run_jobs(ctx, jobs)
+    finally:
+        for j in both:
+            j["what"] = "mc+export"
+    # tlcpar accounted the run (states, coverage of the actions in ctx.actions) and checked exit / min_records
+    for j in both:
+        for r in ctx.tlc_runs:
+            if r["what"] == "export" and r["module"] == j["module"] and r["cfg"] == j["cfg"]:
+                r["what"] = "mc+export"
+        for act in j["must_cover"]:
+            if ctx.actions.get(act, 0) == 0:
+                raise core.MachineryError("vacuous model: action %s of %s/%s never taken" % (act, j["module"], j["cfg"]))
+    return out
+
+
 def run(ctx):
     import lena.flow
     import lena.core
@@ -453,9 +569,13 @@ def run(ctx):
             tlcpar.mc("SliceUse", "SliceUse%s_mc.cfg" % th, ("UStart", "UNextOf", "UFill"), workers=max(2, w // 4)),
             tlcpar.export("Slice", "Slice_export.cfg", 1000),
             tlcpar.export("Iterators", "Iterators_export.cfg", 100),
-            tlcpar.export("SliceUse", "SliceUse%s_export.cfg" % th, 100)]
-    res = tlcpar.run_jobs(ctx, jobs)
-    recs, recs2, recs3 = res[3], res[4], res[5]
+            tlcpar.export("SliceUse", "SliceUse%s_export.cfg" % th, 100),
+            # the invariants are checked and the terminal states exported by the same (one worker) TLC run
+            mc_export("SliceFlow", "SliceFlow%s.cfg" % th,
+                      ("FStart", "FSkip", "FFill", "FLag", "FDrain", "FEmit", "FCollect", "FISlice"), 10000),
+            mc_export("ChainLazy", "ChainLazy%s.cfg" % th, ("COpen", "CNext"), 1000)]
+    res = run_jobs(ctx, jobs)
+    recs, recs2, recs3, recs4, recs5 = res[3], res[4], res[5], res[6], res[7]
     # ---- spec -> code: every terminal state of the bounded model replayed on the real elements
     def guarded(what, fn, *args):
         # a broken element may also loop without yielding: every record is bounded by an alarm
@@ -478,6 +598,13 @@ def run(ctx):
     for rec in recs3:
         guarded("Slice:interleaved-use", replay_use, ctx, rec, lena)
     ctx.sample({"spec_behaviour_repeated_use": recs3[len(recs3) // 2]})
+    # "every finite flow": scenario x protocol surface of the flow object (SliceFlow.tla)
+    replay_flows(ctx, recs4, lena)
+    ctx.sample({"spec_behaviour_flow_protocol": recs4[len(recs4) // 2]})
+    # Chain over iterables that depend on each other (ChainLazy.tla)
+    for i, rec in enumerate(recs5):
+        guarded("Chain:dependent-iterables", replay_chain_dyn, ctx, rec, lena, i)
+    ctx.sample({"spec_behaviour_dependent_iterables": recs5[2 * len(recs5) // 3]})
     bad_steps(ctx, lena)
     # ---- code -> spec: recorded runs beyond the exhaustive bounds, validated by Trace_Slice
     rnd = random.Random(ctx.seed)
@@ -512,7 +639,7 @@ def run(ctx):
                               "filled": sink.group, "stop": stop})
                 continue
         try:
-            out = L(lena.flow.Slice(*args).run(make_flow(n, rnd.choice(FLOW_KINDS + ("iter",)))))
+            out = L(lena.flow.Slice(*args).run(make_flow(n, rnd.choice(FLOW_KINDS + ("iter",) + MORE_FLOW_KINDS))))
         except Exception as exc:     # noqa
             ctx.violation("Slice.run:random:raised:" + exc_name(exc), {"args": repr(args), "n": n})
             continue
@@ -535,11 +662,46 @@ def run(ctx):
         if acc2 != k:
             raise core.MachineryError("trace spec does not bind: corrupted record %d, accepted %d" % (k, acc2))
         ctx.extra["binding_demo"] = "corrupted record %d of 50 rejected at index %d" % (k, acc2)
+    # ---- code -> spec: Chain over longer lists of dependent iterables, validated by Trace_Chain
+    ctrace = []
+    kinds_w = ["static"] * 3 + ["reg"] * 4 + ["snap"] * 4 + ["boom"]
+    for _ in range(6000 if ctx.thorough else 1200):
+        ar = rnd.randint(0, 7)
+        kinds = [rnd.choice(kinds_w) for _k in range(ar)]
+        lens = [0 if k == "snap" else rnd.randint(0, 6) for k in kinds]
+        shared = rnd.choice(c17flows.SHARED_KINDS)
+        try:
+            with deadline(20):
+                got, err, log = run_chain_dyn(lena, kinds, lens, shared, rnd.choice((list, tuple, iter)))
+        except Watchdog:
+            ctx.violation("Chain:dependent-iterables:random:does-not-terminate", {"kinds": kinds, "lens": lens})
+            continue
+        ctrace.append({"kinds": kinds, "lens": lens, "out": [list(v) for v in got], "err": err,
+                       "log": [list(v) for v in log], "shared": shared})
+    acc = ctx.validate("Trace_Chain", "Trace_Chain.cfg", ctrace, label="chain")
+    ctx.traces += acc
+    ctx.evaluations += len(ctrace)
+    for r in ctrace[:acc]:
+        ctx.distinct.add(core.canon(r))
+    if acc < len(ctrace):
+        r = ctrace[acc]
+        ctx.violation("Trace_Chain:rejected:%s" % r["shared"], {"record": r, "index": acc})
+    elif not ctx.violations:
+        ctx.sample({"recorded_trace_record_chain": next(r for r in ctrace if "snap" in r["kinds"] and r["out"])})
+        bad = [dict(r) for r in ctrace[:50]]
+        k = next(i for i, r in enumerate(bad) if i >= 5 and r["out"])
+        bad[k] = dict(bad[k], out=bad[k]["out"][:-1])
+        acc2 = ctx.validate("Trace_Chain", "Trace_Chain.cfg", bad, label="chain_corrupt")
+        if acc2 != k:
+            raise core.MachineryError("Trace_Chain does not bind: corrupted record %d, accepted %d" % (k, acc2))
+        ctx.extra["binding_demo_chain"] = "corrupted record %d of 50 rejected at index %d" % (k, acc2)
     return ctx.finish(
         rule="S2C: every (start, stop, step, n) of the bounded Slice model in every argument form (flows as "
              "iterator / list / tuple / range / generator, odd objects, the ISlice alias on every 7th case), every "
-             "behaviour of SliceUse (two interleaved runs and fill_into on one element) and every Iterators "
+             "behaviour of SliceUse (two interleaved runs and fill_into on one element), every (scenario, protocol "
+             "surface of the flow object) of SliceFlow, every Chain of dependent iterables of ChainLazy (each with every "
+             "kind of shared container) and every Iterators "
              "scenario (all construction variants; CountFrom also shifted to and beyond the machine word), non-trivial = "
              "flow not empty; C2S: seeded random Slice "
-             "runs/fills outside the bounds",
+             "runs/fills and Chains of dependent iterables outside the bounds",
         exhaustive=True)
